@@ -30,8 +30,10 @@ pub struct SimAgent {
     m1: MapLane<String, i64, BTreeMap<String, i64>>,
     #[item(transient, name = "mt")]
     mt_field: MapLane<i32, i64>,
-    sup: SupplyLane<i64>,
-    cmd: CommandLane<i64>,
+    #[item(name = "sup")]
+    sup_field: SupplyLane<i64>,
+    #[item(name = "cmd")]
+    cmd_field: CommandLane<i64>,
     ctl: CommandLane<i32>,
     vs: ValueStore<i64>,
     ms: MapStore<i32, i64>,
@@ -152,7 +154,7 @@ fn act_handler(context: Ctx, act: Act) -> Box<dyn EventHandler<SimAgent> + Send 
             1 => Box::new(context.clear(SimAgent::M1)),
             _ => Box::new(context.clear(SimAgent::MT_FIELD)),
         },
-        Act::Supply { v } => Box::new(context.supply(SimAgent::SUP, v)),
+        Act::Supply { v } => Box::new(context.supply(SimAgent::SUP_FIELD, v)),
         Act::SetStore { v } => Box::new(context.set_value(SimAgent::VS, v)),
         Act::UpdStore { k, v } => Box::new(context.update(SimAgent::MS, k, v)),
         Act::RemStore { k } => Box::new(context.remove(SimAgent::MS, k)),
@@ -356,7 +358,7 @@ impl SimLifecycle {
         context.effect(move || sh.rec(Ev::Clear { map: 2, prev: p }))
     }
 
-    #[on_command(cmd)]
+    #[on_command(cmd_field)]
     fn on_cmd(&self, context: Ctx, value: &i64) -> impl EventHandler<SimAgent> {
         let sh = self.shared.clone();
         let v = *value;
